@@ -107,14 +107,13 @@ func (p *FunctionBuilder) CreateFunction(m *bmodel.MethodEntry) (*gmodel.Functio
 		srcVar.Name = m.Opts.Receiver
 	}
 
-	// The generated function must not collide with a declaration of the package: with another
-	// package-level object, or - in receiver style - with a field or method of the receiver type.
-	if m.Opts.Receiver == "" {
-		if p.pkg.Types.Scope().Lookup(m.Method.Name()) != nil {
-			return nil, logger.Errorf("%v: %v is already declared in the package", p.fset.Position(m.Method.Pos()), m.Method.Name())
+	// In receiver style the generated method must not collide with a field or method of the
+	// receiver type. (Collisions with package-level declarations are reported by the parser,
+	// which knows the declarations that the generated code replaces.)
+	if m.Opts.Receiver != "" {
+		if obj, _, _ := types.LookupFieldOrMethod(src.Type(), true, p.pkg.Types, m.Method.Name()); obj != nil {
+			return nil, logger.Errorf("%v: the receiver type already has a field or method %v", p.fset.Position(m.Method.Pos()), m.Method.Name())
 		}
-	} else if obj, _, _ := types.LookupFieldOrMethod(src.Type(), true, p.pkg.Types, m.Method.Name()); obj != nil {
-		return nil, logger.Errorf("%v: the receiver type already has a field or method %v", p.fset.Position(m.Method.Pos()), m.Method.Name())
 	}
 
 	// Two converter interfaces of one file may not ask for the same function.
